@@ -646,9 +646,7 @@ def m_vec_push(ctx, cty, a):
 
 
 def byte_str(b):
-    if isinstance(b, int):
-        return SStr.lit(chr(b))
-    return SStr.sym(z3.StrFromCode(b), 1)
+    return SStr.of_chars([b])
 
 
 @model("std::vec::Vec::pop")
